@@ -364,8 +364,12 @@ func makeSliceS(fr *frame, instr *ssa.MakeSlice) value {
 				panic(pathEnd{"alloc-limit"})
 			}
 			if what == "cap" {
-				// the capacity is only an allocation hint: within the limit its value is not observable
-				pc.stats.Assumptions["make() with a symbolic capacity: the capacity value (within the allocation limit) is not observed by the program"] = true
+				// a capacity that the path condition determines (up to a few values) is used as is
+				if v, ok := pc.tryConcretizeByModel(s.t, func(c int64) string { return eqConst(s, c) }, 8); ok {
+					return v
+				}
+				// otherwise the capacity is only an allocation hint: within the limit its value is not observable
+				pc.stats.Assumptions["make() with an undetermined symbolic capacity: the capacity value (within the allocation limit) is not observed by the program"] = true
 				return -1
 			}
 			return concretizeInt(pc, s, 0, limit-1)
@@ -430,7 +434,7 @@ func mapUpdateS(fr *frame, m, key, v value) {
 		if m == nil {
 			panic(goPanic{"assignment to entry in nil map"})
 		}
-		if containsSym(key) {
+		if containsSym(key) || hmHasSymKeys(m) {
 			key = resolveSymKeyHM(fr, m, key)
 		}
 		m.insert(key.(hashable), v)
@@ -465,6 +469,20 @@ func resolveSymKey(fr *frame, keys []value, key value) value {
 		}
 	}
 	return key
+}
+
+func hmHasSymKeys(m *hashmap) bool {
+	if m == nil {
+		return false
+	}
+	for _, e := range m.entries() {
+		for ; e != nil; e = e.next {
+			if containsSym(e.key) {
+				return true
+			}
+		}
+	}
+	return false
 }
 
 func resolveSymKeyHM(fr *frame, m *hashmap, key value) value {
@@ -509,7 +527,7 @@ func lookupS(fr *frame, instr *ssa.Lookup, x, idx value) value {
 			idx = resolveSymKey(fr, keysOfBuiltin(m), idx)
 		}
 	case *hashmap:
-		if m != nil && containsSym(idx) {
+		if m != nil && (containsSym(idx) || hmHasSymKeys(m)) {
 			idx = resolveSymKeyHM(fr, m, idx)
 		}
 		if m == nil {
